@@ -103,6 +103,17 @@ func cmdFunc(args []string) int {
 		if res.Rejected != "" {
 			rc = 1
 		}
+		if *verbose && res.Exec != nil {
+			kinds := map[string]int{}
+			for _, e := range res.Exec.Exits {
+				if e.Panic == nil {
+					kinds["return"]++
+				} else {
+					kinds["panic:"+e.Panic.Kind]++
+				}
+			}
+			fmt.Printf("   exits: %v\n", kinds)
+		}
 		for _, o := range res.Obligations {
 			ans := Solve(o.Query, o.Name, SolverCfg{Timeout: time.Duration(*timeout) * time.Second, WorkDir: work, Order: o.Order})
 			ans = preferSmall(o, ans, CheckOpts{Timeout: time.Duration(*timeout) * time.Second}, work)
